@@ -38,6 +38,8 @@ type Case struct {
 	Seed     uint64
 	Mount    string // "", ok, refuse (remote destination only)
 	Depth    int    // ExtendedCopy* only (0: unlimited)
+	PreTag   int    // node (of Prepop) the destination reference points at before the call, -1: none
+	RaceNode int    // node that a simulated concurrent writer pushes to the destination just before the library does, -1: none
 	Profile  *regmodel.Profile
 }
 
@@ -69,6 +71,7 @@ type GenOpts struct {
 	NoOptions      bool // no MapRoot / platform / small cache
 	MaxDelay       time.Duration
 	ManifestAsBlob bool // allow the C01 finding shape
+	RaceWriter     bool // allow a simulated concurrent writer on one node
 }
 
 // GenCase draws a case.
@@ -85,7 +88,7 @@ func GenCase(rng *rand.Rand, o GenOpts) *Case {
 	if len(o.APIs) == 0 {
 		o.APIs = []string{"Copy", "Copy", "CopyGraph"}
 	}
-	c := &Case{Expect: -2}
+	c := &Case{Expect: -2, PreTag: -1, RaceNode: -1}
 	c.SrcKind = o.SrcKinds[rng.IntN(len(o.SrcKinds))]
 	c.DstKind = o.DstKinds[rng.IntN(len(o.DstKinds))]
 	c.API = o.APIs[rng.IntN(len(o.APIs))]
@@ -185,6 +188,22 @@ func GenCase(rng *rand.Rand, o GenOpts) *Case {
 		}
 		c.Prepop = g.DownClosure(picks)
 	}
+	if len(c.Prepop) > 0 && c.API == "Copy" && rng.IntN(2) == 0 {
+		// the destination reference already exists and points at another node
+		var cand []int
+		for _, p := range c.Prepop {
+			if p != c.Expect && (c.DstKind != "remote" || g.Nodes[p].Kind.IsManifestKind()) {
+				cand = append(cand, p)
+			}
+		}
+		if len(cand) > 0 {
+			c.PreTag = cand[rng.IntN(len(cand))]
+		}
+	}
+	if o.RaceWriter && rng.IntN(3) == 0 {
+		reach := g.Reach(c.Root)
+		c.RaceNode = reach[rng.IntN(len(reach))]
+	}
 	if o.MaxDelay > 0 && rng.IntN(4) != 0 {
 		c.Delay = time.Duration(1+rng.IntN(int(o.MaxDelay/time.Microsecond))) * time.Microsecond
 	}
@@ -245,7 +264,7 @@ func (c *Case) Key() string {
 	for i, p := range c.Prepop {
 		pre[i] = fmt.Sprint(p)
 	}
-	return fmt.Sprintf("%s|%s>%s|%s|c%d|%s|%s|m%d|pre%s|mnt%s", c.G.Shape(c.Root), c.SrcKind, c.DstKind, c.API, c.Conc, c.MapRoot, c.DstRef, c.MaxMeta, strings.Join(pre, ","), c.Mount)
+	return fmt.Sprintf("%s|%s>%s|%s|c%d|%s|%s|m%d|pre%s|mnt%s|pt%d|rw%d", c.G.Shape(c.Root), c.SrcKind, c.DstKind, c.API, c.Conc, c.MapRoot, c.DstRef, c.MaxMeta, strings.Join(pre, ","), c.Mount, c.PreTag, c.RaceNode)
 }
 
 // Describe writes the case out for evidence samples and witnesses.
@@ -253,7 +272,7 @@ func (c *Case) Describe() map[string]any {
 	return map[string]any{
 		"api": c.API, "src": c.SrcKind, "dst": c.DstKind, "root": c.Root, "expected_root": c.Expect, "concurrency": c.Conc,
 		"src_ref": c.SrcRef, "dst_ref": c.DstRef, "map_root": c.MapRoot, "platform": c.Platform, "prepopulated": c.Prepop,
-		"max_metadata_bytes": c.MaxMeta, "delay_max_us": c.Delay.Microseconds(), "delay_seed": c.Seed, "mount": c.Mount,
+		"pre_tagged_node": c.PreTag, "racing_writer_node": c.RaceNode, "max_metadata_bytes": c.MaxMeta, "delay_max_us": c.Delay.Microseconds(), "delay_seed": c.Seed, "mount": c.Mount,
 		"dag": c.G.Describe(c.Root),
 	}
 }
@@ -290,6 +309,12 @@ func (c *Case) Setup(ctx context.Context) (*Env, error) {
 			return nil, fmt.Errorf("pre-populate destination: %w", err)
 		}
 	}
+	if c.PreTag >= 0 {
+		if err := e.Dst.Target.Tag(ctx, g.Nodes[c.PreTag].Desc, c.EffectiveDstRef()); err != nil {
+			e.Close()
+			return nil, fmt.Errorf("pre-tag destination: %w", err)
+		}
+	}
 	if c.Mount != "" && e.Dst.Reg != nil {
 		// a sibling repository holding every blob, to mount from
 		for _, nd := range g.Nodes {
@@ -307,6 +332,7 @@ func (c *Case) Rewrap(e *Env) {
 	e.Mon = New(c.G)
 	e.Mon.DelaySeed = c.Seed
 	e.Mon.DelayMax = c.Delay
+	e.Mon.RaceNode = c.RaceNode
 	e.WS = WrapSrc(e.Mon, e.Src.Target)
 	e.WD = WrapDst(e.Mon, e.Dst.Target)
 }
